@@ -5,7 +5,7 @@ Local Open Scope N_scope.
 
 (* ------------------------------------------------------------------ fixed length *)
 Lemma fixed_read_all_valid : forall sizes r acc d rest,
-  take_n (f_remaining r) (src_rest (f_src r)) = Some (d, rest) ->
+  take_n (f_remaining r) (reach (f_src r)) = Some (d, rest) ->
   Forall (fun k => 0 < k) sizes -> (length d < length sizes)%nat ->
   fst (read_all (BFixed r) sizes acc) = (acc ++ d, AtEof).
 Proof.
@@ -20,7 +20,7 @@ Proof.
     + rewrite B4 in Ht by (lia || reflexivity). rewrite take_n_nil in Ht by exact E. discriminate.
     + cbn [lift]. remember (o :: out) as O eqn:EO.
       rewrite B1, take_n_app in Ht by lia.
-      destruct (take_n (f_remaining r - lenN O) (src_rest s')) as [[d' a]|] eqn:Et; [|discriminate].
+      destruct (take_n (f_remaining r - lenN O) (reach s')) as [[d' a]|] eqn:Et; [|discriminate].
       inversion Ht. subst d a.
       rewrite EO. rewrite <- EO.
       rewrite (IH {| f_src := s'; f_remaining := f_remaining r - lenN O |} (acc ++ O) d' rest).
@@ -37,12 +37,12 @@ Lemma fixed_read_valid : forall lo st sizes n p rest,
 Proof.
   intros lo st sizes n p rest Hs Hpos Hlen. unfold spec_fixed in Hs.
   destruct (take_n n (lo ++ concat st)) as [[d a]|] eqn:Et; [|discriminate]. inversion Hs. subst d a.
-  unfold new_fixed. rewrite (fixed_read_all_valid sizes _ [] p rest); [reflexivity| |exact Hpos|exact Hlen].
-  cbn [f_remaining f_src]. rewrite src_rest_mk. exact Et.
+  unfold new_fixed. rewrite (fixed_read_all_valid sizes _ [] p []); [reflexivity| |exact Hpos|exact Hlen].
+  cbn [f_remaining f_src]. rewrite reach_mk_take. exact (take_n_firstnN _ _ _ _ Et).
 Qed.
 
 Lemma fixed_read_all_invalid : forall sizes r acc,
-  lenN (src_rest (f_src r)) < f_remaining r -> Forall (fun k => 0 < k) sizes ->
+  lenN (reach (f_src r)) < f_remaining r -> Forall (fun k => 0 < k) sizes ->
   snd (fst (read_all (BFixed r) sizes acc)) <> AtEof.
 Proof.
   induction sizes as [|k sizes IH]; intros r acc Hlt Hpos; [cbn; discriminate|].
@@ -64,7 +64,8 @@ Proof.
   intros lo st sizes n w Hs Hpos. unfold spec_fixed in Hs.
   destruct (take_n n (lo ++ concat st)) as [[d a]|] eqn:Et; [discriminate|].
   apply take_n_none in Et. unfold new_fixed. apply fixed_read_all_invalid; [|exact Hpos].
-  cbn [f_remaining f_src]. rewrite src_rest_mk. exact Et.
+  cbn [f_remaining f_src]. rewrite reach_mk_take.
+  pose proof (lenN_firstnN_le_len n (lo ++ concat st)) as Hle. lia.
 Qed.
 
 (* ------------------------------------------------------------------ chunked *)
